@@ -599,9 +599,14 @@ func writeEvidence(prop *Prop, tier string, seed int, results []*sx.RunResult, p
 		"wall_s":     round2(wall.Seconds()),
 		"violations": nViol,
 	}
-	os.MkdirAll(filepath.Join(verifDir, "evidence"), 0o755)
+	evDir := filepath.Join(verifDir, "evidence")
+	if r := os.Getenv("VERIF_REPO"); r != "" && r != "/repo" {
+		// runs against a scratch tree (seeded changes) must not overwrite the evidence of /repo
+		evDir = filepath.Join(verifDir, ".work", "evidence-scratch")
+	}
+	os.MkdirAll(evDir, 0o755)
 	data, _ := json.MarshalIndent(ev, "", " ")
-	os.WriteFile(filepath.Join(verifDir, "evidence", prop.ID+".json"), data, 0o644)
+	os.WriteFile(filepath.Join(evDir, prop.ID+".json"), data, 0o644)
 }
 
 func round2(f float64) float64 { return float64(int64(f*100)) / 100 }
